@@ -65,12 +65,16 @@ CLAIMED = {
             'reweighted results carry the flag (theorem list in the evidence). The executable model is compared with pyerrors, and a table oracle '
             '{chain: {config: sample}} of the statement is evaluated on every case incl. list members on different equal-length subsets and Corr.',
             'Lean kernel; standard axioms; the final division of reweight is the C01 truediv site; generator-bounded search.', '5 C05'),
-    'C17': ('Lean 4 theorems on the record readers (decode(encode) = id for stream and chunked readers, int32 codec) + model/impl correspondence on record structure and renumbering + writer-as-oracle on synthetic file sets',
+    'C17': ('Lean 4 theorems on the record readers (decode(encode) = id for stream and chunked readers, int32 codec), on the configuration bookkeeping (renumbering of equally spaced trajectory numbers, selection by value with stride: entries and alignment) and on sort_names (permutation, numeric (r, id) lexicographic order via stability of the two-stage sort, independence of the listing order) + model/impl correspondence on record structure, renumbering, selection and name sorting + writer-as-oracle on synthetic file sets',
             'Proof: for every record list, payload size and number of records, reading back an encoded file returns exactly the records (stream readers of '
-            'rwms / ms.dat / gfms.dat and the chunked reader of ms5_xsf). The Lean reader is run on the bytes of every generated binary file and must '
-            'report the stored configuration numbers and the documented renumbering; the implementation is checked against the writer\'s own record of '
-            'distinct per-(replica, configuration, slot) numbers for every format incl. sfcf text layouts, with selections and shuffled directory listings.',
-            'Lean kernel; standard axioms; struct/numpy conversions; regular-expression engine; the reductions (exp average, timeslice sums) are checked numerically only; Hadrons hdf5 not generated.', '5 C17'),
+            'rwms / ms.dat / gfms.dat and the chunked reader of ms5_xsf); stored trajectory numbers s, s+d, ... are renumbered to consecutive configuration numbers in file '
+            'order with the documented thermalisation offset; the selection data[i0 : i1+1][::step] with indices found by value returns entry j = position i0 + j*step '
+            'while <= i1 and keeps every number attached to its configuration (the zipped result is a sub-list of the zipped input); sort_names returns a permutation, '
+            'in numeric lexicographic (r, id) order when both numbers are present (the second, stable sort refines the first), and the same list for every listing order when the '
+            'pairs are distinct. The Lean reader is run on the bytes of every generated binary file, the models of renumber / select / sort_names are compared with pyerrors '
+            'and with python slicing, and the implementation is checked against the writer\'s own record of distinct per-(replica, configuration, slot) numbers for every format incl. '
+            'sfcf text layouts, with selections and shuffled directory listings.',
+            'Lean kernel; standard axioms; struct/numpy conversions; regular expressions modelled on ASCII names (first match, maximal digit run); the text layouts and the reductions (exp average, timeslice sums) are checked numerically only; Hadrons hdf5 not generated.', '5 C17'),
     'C18': ('Lean 4 theorems: prefix safety of the record readers for every cut offset + fault enumeration of truncation offsets on the implementation + model/impl accept/reject correspondence',
             'Proof: for every well-formed record file and EVERY cut offset k the reader either rejects the prefix or returns exactly the first k/(4+P) records; '
             'a cut inside a payload is always rejected; surviving configuration numbers are unchanged (stream and chunked readers). On the implementation '
